@@ -73,3 +73,13 @@ package bufanalysis
 //@   modifies heap, ghost.fail, ghost.buf
 //@   reveal pathOf
 //@   assert before "testsuite := xml.StartElement" same-file-as-other-formats: path == ite(hasSuffix(pathOf(annotations[0]), ".proto"), substr(pathOf(annotations[0]), 0, len(pathOf(annotations[0])) - 6), pathOf(annotations[0]))
+//
+// C02: the comparison used to sort annotations is exactly the documented lexicographic order
+// (annLess / annSameKey in /verif/specs/C02.spec), which is a strict total order on keys.
+//@ func fileAnnotationCompareTo(a, b) (r)
+//@   property C02
+//@   reveal annLess, lt1, lt2, lt3, lt4, lt5, lt6, annSameKey, hasFI, pathKey
+//@   ensures nil-first: (a == nil && b == nil ==> r == 0) && (a == nil && b != nil ==> r < 0) && (a != nil && b == nil ==> r > 0)
+//@   ensures less: a != nil && b != nil ==> ((r < 0) <==> annLess(a, b))
+//@   ensures greater: a != nil && b != nil ==> ((r > 0) <==> annLess(b, a))
+//@   ensures equal: a != nil && b != nil ==> ((r == 0) <==> annSameKey(a, b))
